@@ -41,7 +41,7 @@ EXPLANATION = ("Theorems: positional scores are invariant under permuting, mergi
                "renaming is then exactly the correspondence holding for arbitrary names. STV-family equivariance is "
                "carried by the metamorphic runs, not by a theorem.")
 
-N_QUICK, N_THOROUGH = 700, 8400
+N_QUICK, N_THOROUGH = 700, 25200
 POOL2 = ["zoe", "Yan", "x-ray", "Will", "v", "Uma", "tom", "S t", "R2", "q", "Pam", "O'N", "ned", "Mo", "l", "Kim"]
 
 
